@@ -54,6 +54,11 @@ func (sp *SAMLServiceProvider) buildLogoutResponse(statusCodeValue string, reqID
 	statusCode.CreateAttr("Value", statusCodeValue)
 
 	doc := etree.NewDocument()
+	// Write CR (and TAB / LF in attribute values) as character references: a
+	// literal one is normalized away by the recipient's XML parser, which alters
+	// the value and invalidates the enveloped signature.
+	doc.WriteSettings.CanonicalText = true
+	doc.WriteSettings.CanonicalAttrVal = true
 
 	// Only POST binding includes <Signature> in <AuthnRequest> (includeSig)
 	if includeSig {
